@@ -435,6 +435,147 @@ class NestedPairing3(Lemma):
 UNITS += [NestedPairing3("Szudzik")]
 
 
+# ----------------------------------------------------------------- N^d pairings by nesting: induction over the dimension
+def nested_spec(spec2, x):
+    """spec_d(x) = spec2(spec_{d-1}(x[:-1]), x[-1]),  spec_2 = spec2"""
+    acc = spec2(x[0], x[1])
+    for c in x[2:]:
+        acc = spec2(acc, c)
+    return acc
+
+
+class NestedPairingRec(FunctionContract):
+    """Pairing.pairing(x), x in N^d (real recursive body; the recursive call at dimension d-1 through THIS contract, the 2-d
+    map through its contract): the result is the nested spec value -- the induction step, instantiated at d = 3, 4, 5."""
+    prop = "C14"
+    cases = (3, 4, 5)
+
+    def __init__(self, cls):
+        self.cls = cls
+        self.spec2 = C[cls][0].spec
+        self.target = f"{P}Pairing.pairing"
+        self.name = f"{cls}.pairing[nested]"
+        self.modular = (C[cls][0],)
+
+    def configure(self, interp):
+        interp.modular[self.target] = self
+
+    def setup(self, vc, d):
+        return dict(self=vc.obj(P + self.cls), x=tuple(vc.ints("x", d)))
+
+    def requires(self, self_=None, x=None, **kw):
+        return nonneg(*x)
+
+    def ensures(self, result, self_=None, x=None, **kw):
+        if len(x) == 2:
+            return {"equals-nested-spec": result == self.spec2(x[0], x[1]), "natural": result >= 0}
+        return {"equals-nested-spec": result == nested_spec(self.spec2, x), "natural": result >= 0}
+
+    def modular_result(self, vc, self_=None, x=None, **kw):
+        return vc.fresh("nested", "i")
+
+    def replay(self, model, clause, d):
+        o = native(P + self.cls)()
+        x = tuple(int(v) for v in (model or {}).get("x", [1] * d))
+        sp = lambda a, b: int(native(f"{P}{self.cls}.pairing2d")(a, b))
+        want = sp(x[0], x[1])
+        for c in x[2:]:
+            want = sp(want, c)
+        try:
+            got = int(o.pairing(x))
+        except Exception as e:
+            return (True, {"x": list(x), "exception": f"{type(e).__name__}: {e}"})
+        return (got != want, {"x": list(x), "pairing": got, "nested_2d_value": want})
+
+
+class NestedProjectionRec(FunctionContract):
+    """Pairing.projection(z, d) (real recursive body; recursive call at d-1 through THIS contract, 2-d projection through its
+    contract): a d-tuple of naturals whose nested spec value is z -- induction step at d = 3, 4, 5."""
+    prop = "C14"
+    cases = (3, 4, 5)
+
+    def __init__(self, cls):
+        self.cls = cls
+        self.spec2 = C[cls][0].spec
+        self.target = f"{P}Pairing.projection"
+        self.name = f"{cls}.projection[nested]"
+        self.modular = (C[cls][1],)
+
+    def configure(self, interp):
+        interp.modular[self.target] = self
+
+    def setup(self, vc, d):
+        return dict(self=vc.obj(P + self.cls), z=vc.int("z"), dim=d)
+
+    def requires(self, self_=None, z=None, dim=None, **kw):
+        return z >= 0
+
+    def ensures(self, result, self_=None, z=None, dim=None, **kw):
+        if not (isinstance(result, tuple) and len(result) == dim):
+            return {"shape": False}
+        return {"shape": True, "natural-coordinates": nonneg(*result), "right-inverse": nested_spec(self.spec2, result) == z}
+
+    def modular_result(self, vc, self_=None, z=None, dim=None, **kw):
+        return tuple(vc.fresh(f"q{i}", "i") for i in range(dim))
+
+    def replay(self, model, clause, d):
+        o = native(P + self.cls)()
+        z = int((model or {}).get("z", 12345))
+        try:
+            r = tuple(int(v) for v in o.projection(z, d))
+        except Exception as e:
+            return (True, {"z": z, "dim": d, "exception": f"{type(e).__name__}: {e}"})
+        sp = lambda a, b: int(native(f"{P}{self.cls}.pairing2d")(a, b))
+        ok = len(r) == d and all(v >= 0 for v in r)
+        if ok:
+            acc = sp(r[0], r[1])
+            for c in r[2:]:
+                acc = sp(acc, c)
+            ok = acc == z
+        return (not ok, {"z": z, "dim": d, "projection": list(r)})
+
+
+class NestedBijection(Lemma):
+    """property statement for the nested d-dimensional maps, from the two nested contracts and the 2-d injectivity lemma:
+    projection(pairing(x), d) = x and pairing(projection(z, d)) = z, d = 3, 4, 5."""
+    prop = "C14"
+    cases = (3, 4, 5)
+
+    def __init__(self, cls):
+        self.cls = cls
+        self.name = f"property:{cls}.nested-bijection"
+
+    def prove(self, vc, d):
+        pc, qc, inj = C[self.cls]
+        spec2 = pc.spec
+        n = f"{self.name}[{d}]"
+        pr, qr = NestedPairingRec(self.cls), NestedProjectionRec(self.cls)
+        x, z = tuple(vc.ints("x", d)), vc.int("z")
+        vc.assume(nonneg(*x, z))
+        w = vc.fresh("w", "i")
+        vc.assume(And(*pr.ensures(w, x=x).values()))
+        vc.check(n + "::pairing-lands-in-projection-domain", qr.requires(z=w, dim=d))
+        r = qr.modular_result(vc, z=w, dim=d)
+        vc.assume(And(*qr.ensures(r, z=w, dim=d).values()))
+        # peel the last coordinate d-1 times: spec2 injective at (spec_k(r[:k]), r[k]) vs (spec_k(x[:k]), x[k]); the inner
+        # values are naturals (2-d contract)
+        for k in range(d - 1, 1, -1):
+            a, b = nested_spec(spec2, r[:k]), nested_spec(spec2, x[:k])
+            vc.assume(And(a >= 0, b >= 0))                         # `natural` clause of the 2-d pairing contract
+            vc.assume(inj.statement(a, r[k], b, x[k]))
+        vc.assume(inj.statement(r[0], r[1], x[0], x[1]))
+        vc.check(n + "::projection-after-pairing-is-identity", And(*[a == b for a, b in zip(r, x)]))
+        q = qr.modular_result(vc, z=z, dim=d)
+        vc.assume(And(*qr.ensures(q, z=z, dim=d).values()))
+        vc.check(n + "::projection-lands-in-pairing-domain", pr.requires(x=q))
+        w2 = vc.fresh("w2", "i")
+        vc.assume(And(*pr.ensures(w2, x=q).values()))
+        vc.check(n + "::pairing-after-projection-is-identity", w2 == z)
+
+
+UNITS += [NestedPairingRec("Szudzik"), NestedProjectionRec("Szudzik"), NestedBijection("Szudzik")]
+
+
 # ----------------------------------------------------------------- PairingToZd: N <-> Z^d \ {0}
 class ZdBijection(Lemma):
     """pair/project of PairingToZd (omit_zero=True): real bodies of pair, project, pairing, projection, the nested
